@@ -1,0 +1,66 @@
+//go:build verif
+
+package cache
+
+// Contracts for govc (see /verif/DESIGN.md).  Comment-only file.
+
+//@ import dns github.com/miekg/dns
+
+// ---------------------------------------------------------------------------
+// C04: TTLs served from the cache never outlive the record.
+
+// lowBound(sec, t): t is no greater than the TTL of any non-OPT record of sec.
+//@ pred lowBound(sec []dns.RR, t int) = forall j int :: 0 <= j && j < len(sec) && !isOPT(sec[j]) ==> t <= hdrOf(sec[j]).Ttl
+//@ pred lowBoundUpTo(sec []dns.RR, n int, t int) = forall j int :: 0 <= j && j <= n && j < len(sec) && !isOPT(sec[j]) ==> t <= hdrOf(sec[j]).Ttl
+//@ pred validRRs(sec []dns.RR) = forall j int :: 0 <= j && j < len(sec) ==> ref(sec[j]) != 0
+
+//@ func getTTLIfLower
+//@   property C04
+//@   requires ref(r) != 0
+//@   ensures res <= ttl && (isOPT(r) ==> res == ttl) && (!isOPT(r) ==> res <= hdrOf(r).Ttl)
+
+// lastLowest records the result of the latest findLowestTTL call, so that the
+// callers' contracts can refer to it.
+//@ ghost lastLowest int
+
+//@ func findLowestTTL
+//@   property C04
+//@   requires msg != nil && validRRs(msg.Answer) && validRRs(msg.Ns) && validRRs(msg.Extra)
+//@   modifies lastLowest
+//@   ghostset lastLowest = ttl
+//@   ensures lastLowest == ttl
+//@   ensures never-above-any-record: lowBound(msg.Answer, ttl) && lowBound(msg.Ns, ttl) && lowBound(msg.Extra, ttl)
+//@   ensures servfail-short-lived: msg.Rcode == 2 ==> ttl <= 30
+//@   loop 1 invariant -1 <= #i && #i < 3 && ttl <= 4294967295
+//@   loop 1 invariant (#i >= 0 ==> lowBound(msg.Answer, ttl)) && (#i >= 1 ==> lowBound(msg.Ns, ttl)) && (#i >= 2 ==> lowBound(msg.Extra, ttl))
+//@   loop 2 invariant -1 <= #i && #i < len(rrs) && validRRs(rrs)
+//@   loop 2 invariant -1 <= #i1 && #i1 + 1 < 3 && ttl <= 4294967295
+//@   loop 2 invariant (#i1 + 1 == 0 ==> rrs == msg.Answer) && (#i1 + 1 == 1 ==> rrs == msg.Ns) && (#i1 + 1 == 2 ==> rrs == msg.Extra)
+//@   loop 2 invariant lowBoundUpTo(rrs, #i, ttl)
+//@   loop 2 invariant (#i1 + 1 >= 1 ==> lowBound(msg.Answer, ttl)) && (#i1 + 1 >= 2 ==> lowBound(msg.Ns, ttl))
+
+// servedTTL: the TTL a cached record may be served with after ageNs
+// nanoseconds in the cache: the lowest TTL minus the age, rounded to whole
+// seconds, floor zero.
+//@ pred secsLeft(low int, ageNs int) = roundHalfAway(real(low) - real(ageNs) / real(1000000000))
+//@ pred servedTTL(low int, ageNs int) = secsLeft(low, ageNs) > 0 ? secsLeft(low, ageNs) : 0
+//@ pred allTTL(sec []dns.RR, t int) = forall j int :: 0 <= j && j < len(sec) ==> hdrOf(sec[j]).Ttl == t
+
+//@ pred ownSlice(s []dns.RR) = arr(s) == 0 || fresh(s)
+
+//@ func (*Middleware).fromCacheItem
+//@   property C04
+//@   requires req != nil && item.msg != nil && validRRs(item.msg.Answer) && validRRs(item.msg.Ns) && validRRs(item.msg.Extra)
+//@   modifies lastLowest, dns.RR_Header.Ttl
+//@   ensures msg != nil && fresh(msg) && msg.Id == req.Id && msg.Response
+//@   ensures same-answer-shape: msg.Rcode == item.msg.Rcode && msg.AuthenticatedData == item.msg.AuthenticatedData &&
+//@             msg.RecursionAvailable == item.msg.RecursionAvailable && len(msg.Answer) == len(item.msg.Answer) && len(msg.Ns) == len(item.msg.Ns)
+//@   ensures ttl-decays-with-age: allTTL(msg.Answer, servedTTL(lastLowest, sinceNs(item.when))) &&
+//@             allTTL(msg.Ns, servedTTL(lastLowest, sinceNs(item.when))) && allTTL(msg.Extra, servedTTL(lastLowest, sinceNs(item.when)))
+//@   loop 1 invariant -1 <= #i && #i < len(item.msg.Answer) && len(msg.Answer) == #i + 1 && allTTL(msg.Answer, newTTL) && fresh(msg) && ownSlice(msg.Answer)
+//@   loop 1 invariant msg.Ns == nil && msg.Extra == nil
+//@   loop 2 invariant -1 <= #i && #i < len(item.msg.Ns) && len(msg.Ns) == #i + 1 && allTTL(msg.Ns, newTTL) && fresh(msg) && ownSlice(msg.Ns)
+//@   loop 2 invariant len(msg.Answer) == len(item.msg.Answer) && allTTL(msg.Answer, newTTL) && msg.Extra == nil && ownSlice(msg.Answer) && (arr(msg.Answer) == 0 || arr(msg.Answer) != arr(msg.Ns))
+//@   loop 3 invariant -1 <= #i && #i < len(item.msg.Extra) && allTTL(msg.Extra, newTTL) && fresh(msg) && ownSlice(msg.Extra)
+//@   loop 3 invariant len(msg.Answer) == len(item.msg.Answer) && len(msg.Ns) == len(item.msg.Ns) && allTTL(msg.Answer, newTTL) && allTTL(msg.Ns, newTTL)
+//@   loop 3 invariant ownSlice(msg.Answer) && ownSlice(msg.Ns) && (arr(msg.Answer) == 0 || arr(msg.Answer) != arr(msg.Extra)) && (arr(msg.Ns) == 0 || arr(msg.Ns) != arr(msg.Extra))
